@@ -14,14 +14,15 @@ its stored key object), `poly[t] += b` (`__getitem__` then `__setitem__`: `KeyEr
 key not in `ignored_terms` gets `bias * scalar`), `normalize` (`lmin/lmax/pmin/pmax` start at 0, constants take no part
 in the ranges, `inv_scalar = max(lmin/lo, lmax/hi, pmin/plo, pmax/phi)`; `ZeroDivisionError` when a range bound is 0;
 no change when `inv_scalar == 0`; else `scale(1/inv_scalar)`).  `update` / `setdefault` are `MutableMapping` mixins over
-`__setitem__` / `__contains__`: the harness expands them.  `relabel_variables` is not modelled here. -/
+`__setitem__` / `__contains__`: the harness expands them.  `relabel_variables(mapping, inplace=True)`: the validation of `iter_safe_relabels` and the
+in-place loop for a mapping without label conflicts (a swap / cycle goes through `resolve_label_conflict`: not modelled). -/
 
 namespace Red
 open Pen
 
 abbrev PolyState := List (LTerm × Rat)
 
-inductive PolyErr | keyError | zeroDivision
+inductive PolyErr | keyError | zeroDivision | valueError | conflictNotModelled
   deriving DecidableEq, Repr
 
 /-- `asfrozenset(term)` -/
@@ -61,6 +62,34 @@ def invScalar (rg : Ranges) (ignored : List LTerm) (s : PolyState) : Rat :=
   let hi := fun (k : LTerm) => !isIgnored ignored k && decide (k.length > 1)
   max (max (max (minBias lin s / rg.linLo) (maxBias lin s / rg.linHi)) (minBias hi s / rg.polyLo)) (maxBias hi s / rg.polyHi)
 
+/-- `submap.get(v, v)` -/
+def mapLabel (m : List (Label × Label)) (v : Label) : Label :=
+  match m.find? (fun p => p.1 == v) with
+  | some p => p.2
+  | none => v
+
+/-- `frozenset(submap.get(v, v) for v in oldterm)` -/
+def relabelTerm (m : List (Label × Label)) (t : LTerm) : LTerm := dedup (t.map (mapLabel m))
+
+/-- the loop of `relabel_variables` for one safe submap, over the snapshot `list(self.items())`:
+    `if newterm != oldterm: self[newterm] = bias; del self[oldterm]` -/
+def relabelStep (m : List (Label × Label)) (s : PolyState) : PolyState :=
+  s.foldl (fun acc e => let nt := relabelTerm m e.1
+                        if sameSet nt e.1 then acc else objDel (objSet acc nt e.2) e.1) s
+
+def stateVars (s : PolyState) : List Label := dedup (s.flatMap (·.1))
+
+/-- `iter_safe_relabels(mapping, self.variables)`: `ValueError` when two items are mapped to the same label or a new label is an
+    existing variable that is not relabelled itself; when an old label is also a new label the code goes through intermediate labels
+    (`resolve_label_conflict`) — not modelled (`conflictNotModelled`); else the mapping itself is the one safe relabelling -/
+def safeRelabel (m : List (Label × Label)) (existing : List Label) : Except PolyErr (List (Label × Label)) :=
+  let news := m.map (·.2)
+  let olds := m.map (·.1)
+  if (dedup news).length < m.length then .error .valueError
+  else if news.any (fun v => existing.contains v && !olds.contains v) then .error .valueError
+  else if olds.any (fun v => news.contains v) then .error .conflictNotModelled
+  else .ok m
+
 inductive PolyOp
   | setItem (t : List Label) (b : Rat)
   | addItem (t : List Label) (b : Rat)
@@ -68,6 +97,7 @@ inductive PolyOp
   | popItem
   | scale (c : Rat) (ignored : List (List Label))
   | normalize (rg : Ranges) (ignored : List (List Label))
+  | relabel (m : List (Label × Label))     -- `relabel_variables(mapping)` (a dict: different keys), in place
 
 def applyOp (s : PolyState) : PolyOp → Except PolyErr PolyState
   | .setItem t b => .ok (objSet s (asKey t) b)
@@ -89,6 +119,10 @@ def applyOp (s : PolyState) : PolyOp → Except PolyErr PolyState
     else
       let inv := invScalar rg (ignored.map asKey) s
       if inv = 0 then .ok s else .ok (scaleTerms (1 / inv) (ignored.map asKey) s)
+  | .relabel m =>
+    match safeRelabel m (stateVars s) with
+    | .ok sub => .ok (relabelStep sub s)
+    | .error e => .error e
 
 def runOps (s : PolyState) : List PolyOp → Except PolyErr PolyState
   | [] => .ok s
